@@ -20,7 +20,7 @@ import logging
 import asyncio as aio
 from typing import Any
 from collections.abc import Awaitable, Coroutine
-from .utils import gen_nonce
+from .utils import gen_nonce, timestamp
 from .encoding import BinaryStr, TypeNumber, LpTypeNumber, parse_interest, \
     parse_tl_num, parse_data, DecodeError, Name, NonStrictName, MetaInfo, \
     make_data, InterestParam, make_interest, FormalName, SignaturePtrs, parse_lp_packet, Component
@@ -50,6 +50,7 @@ class NDNApp:
     data_validator: Validator = None
     _autoreg_routes: list[tuple[FormalName, Route, Validator | None, bool, bool]]
     _prefix_register_semaphore: aio.Semaphore = None
+    _last_command_timestamp: int = 0
     logger: logging.Logger
 
     def __init__(self, face=None, keychain=None):
@@ -435,9 +436,10 @@ class NDNApp:
 
         # Fix the issue that NFD only allows one packet signed by a specific key for a timestamp number
         async with self._prefix_register_semaphore:
+            await self._wait_for_new_command_timestamp()
             try:
                 _, _, reply = await self.express_interest(
-                    name=make_command('rib', 'register', self.face, name=name),
+                    name=self._make_rib_command('register', name),
                     lifetime=1000)
                 ret = parse_response(reply)
                 if ret['status_code'] != 200:
@@ -464,14 +466,29 @@ class NDNApp:
         """
         name = Name.normalize(name)
         del self._prefix_tree[name]
-        try:
-            _, _, reply = await self.express_interest(
-                make_command('rib', 'unregister', self.face, name=name), lifetime=1000)
-            return parse_response(reply)['status_code'] == 200
-        except (InterestNack, InterestTimeout, InterestCanceled, ValidationFailure):
-            return False
-        except (DecodeError, ValueError, TypeError, IndexError, struct.error):
-            return False
+        # Commands are issued one at a time, each with a timestamp of its own (see register)
+        async with self._prefix_register_semaphore:
+            await self._wait_for_new_command_timestamp()
+            try:
+                _, _, reply = await self.express_interest(
+                    self._make_rib_command('unregister', name), lifetime=1000)
+                return parse_response(reply)['status_code'] == 200
+            except (InterestNack, InterestTimeout, InterestCanceled, ValidationFailure):
+                return False
+            except (DecodeError, ValueError, TypeError, IndexError, struct.error):
+                return False
+
+    async def _wait_for_new_command_timestamp(self):
+        # NFD rejects a command whose timestamp is not newer than that of the previous command
+        for _ in range(10):
+            if timestamp() > self._last_command_timestamp:
+                break
+            await aio.sleep(0.001)
+
+    def _make_rib_command(self, command: str, name: FormalName):
+        ret = make_command('rib', command, self.face, name=name)
+        self._last_command_timestamp = timestamp()
+        return ret
 
     def set_interest_filter(self, name: NonStrictName, func: Route,
                             validator: Validator | None = None, need_raw_packet: bool = False,
